@@ -14,8 +14,10 @@ import (
 	"math/rand/v2"
 	"os"
 	"reflect"
+	"runtime"
 	"strings"
 	"sync"
+	"sync/atomic"
 	"unsafe"
 
 	"verif/harness/common"
@@ -256,6 +258,45 @@ func CheckOptic[S any](o Optic[S]) (ok bool) {
 	n := len(o.Vals)
 	if n == 0 {
 		return
+	}
+	// ---- cold start: the very first use of a freshly derived optic comes from four goroutines released together, each
+	// with a structure of its own (optic values are stateless: whatever they resolve lazily must be published safely)
+	if o.Kind != "setter" {
+		const starters = 4
+		var gate atomic.Int32
+		msgs := make([]string, starters)
+		var wg sync.WaitGroup
+		for w := 0; w < starters; w++ {
+			wg.Add(1)
+			go func(w int) {
+				defer wg.Done()
+				g := newGuard[S](w)
+				s := &g.s
+				o.Fill(s, w)
+				if o.Write != nil {
+					o.Write(s, o.Vals[w%n])
+				}
+				want := o.Read(s)
+				gate.Add(1)
+				for gate.Load() < starters {
+					runtime.Gosched()
+				}
+				var got any
+				if pn, msg := Derive(func() { got = o.Get(s) }); pn {
+					msgs[w] = "first Get (one of four concurrent first uses, each on its own structure) panicked: " + msg
+				} else if !eq(got, want) {
+					msgs[w] = fmt.Sprintf("first Get (one of four concurrent first uses of a fresh optic, each on its own structure) returned %s, the field holds %s", show(got), show(want))
+				}
+			}(w)
+		}
+		wg.Wait()
+		Rec.Count("cold_concurrent_first_uses", starters)
+		for _, m := range msgs {
+			if m != "" {
+				bad("cold-start", "%s", m)
+				return
+			}
+		}
 	}
 	rounds := n
 	if rounds < 4 {
